@@ -148,3 +148,147 @@ example : PV.C01.wfBlocks [fA, fB] = true ∧ topoB [fA, fB] = false ∧ topoB [
     watchOKB [fA, fB] [⟨1, 0, 8⟩, ⟨2, 0, 4⟩] = true := by decide
 
 end PV.C11
+
+/-! ## the whole schedule: single blocks and SCC groups in topological order -/
+namespace PV.C11
+open PV.Rtl PV.Sched
+
+theorem iterate_frame (fuel : Nat) (watch : List Rng) (scc : List Blk) (s s' : St) (v : Var)
+    (h : iterate fuel watch scc s = some s') (hv : ∀ b ∈ scc, ¬ inRngs b.writes v) : s' v = s v := by
+  induction fuel generalizing s with
+  | zero => simp [iterate] at h
+  | succ f ih =>
+    simp only [iterate] at h
+    have hfr : runBlocks scc s v = s v := by
+      unfold runBlocks
+      clear h ih
+      induction scc generalizing s with
+      | nil => rfl
+      | cons b bs ihb =>
+        simp only [List.foldl_cons]
+        rw [ihb (fun c hc => hv c (List.mem_cons_of_mem _ hc))]
+        exact Blk.run_frame b s v (hv b List.mem_cons_self)
+    split at h
+    · cases h; exact hfr
+    · rw [ih _ h, hfr]
+
+theorem runEntries_frame (fuel : Nat) (es : List Entry) (s t : St) (v : Var)
+    (h : runEntries fuel es s = some t) (hv : ∀ b ∈ allBlocks es, ¬ inRngs b.writes v) : t v = s v := by
+  induction es generalizing s with
+  | nil => simp [runEntries] at h; rw [← h]
+  | cons e es ih =>
+    have hrest : ∀ b ∈ allBlocks es, ¬ inRngs b.writes v := by
+      intro b hb; apply hv b; simp only [allBlocks, List.flatMap_cons, List.mem_append]; exact Or.inr hb
+    cases e with
+    | blk b =>
+      simp only [runEntries] at h
+      rw [ih _ h hrest]
+      apply Blk.run_frame
+      apply hv b; simp [allBlocks, Entry.blocks]
+    | scc bs w =>
+      simp only [runEntries] at h
+      cases hi : iterate fuel w bs s with
+      | none => simp [hi] at h
+      | some s1 =>
+        simp only [hi] at h
+        rw [ih _ h hrest]
+        apply iterate_frame fuel w bs s s1 v hi
+        intro b hb; apply hv b
+        simp only [allBlocks, List.flatMap_cons, List.mem_append, Entry.blocks]; exact Or.inl hb
+
+/-- a block that is at a fixed point stays at a fixed point when only bits it neither reads nor writes change -/
+theorem fixed_transfer (b : Blk) (s1 t : St) (hfix : b.run s1 = s1)
+    (hR : ∀ v, inRngs b.reads v → t v = s1 v) (hW : ∀ v, inRngs b.writes v → t v = s1 v) : b.run t = t := by
+  funext v
+  by_cases hv : inRngs b.writes v
+  · rw [Blk.run_dep b t s1 hR v hv, hfix, hW v hv]
+  · exact Blk.run_frame b t v hv
+
+theorem run_idem (b : Blk) (hns : b.noSelf = true) (s : St) : b.run (b.run s) = b.run s := by
+  have hwf := denote_wf b hns
+  funext v
+  by_cases hv : inRngs b.writes v
+  · apply Blk.run_dep b (b.run s) s _ v hv
+    intro u hu
+    exact Blk.run_frame b s u (hwf.noself u hu)
+  · exact Blk.run_frame b (b.run s) v hv
+
+/-- **on return no update block of the design, run again, changes any signal**: the schedule is a list of single blocks
+and SCC groups in topological order (as produced by the SCC-based schedulers); every group was iterated to stability. -/
+theorem whole_schedule (fuel : Nat) (es : List Entry) (s t : St)
+    (hwf : PV.C01.wfBlocks (allBlocks es) = true) (htopo : entriesTopoB es = true) (hw : watchesOKB es = true)
+    (h : runEntries fuel es s = some t) : ∀ b ∈ allBlocks es, b.run t = t := by
+  induction es generalizing s with
+  | nil => intro b hb; simp [allBlocks] at hb
+  | cons e es ih =>
+    -- split the hypotheses
+    unfold PV.C01.wfBlocks at hwf
+    simp only [Bool.and_eq_true, List.all_eq_true] at hwf
+    obtain ⟨hns, hsw⟩ := hwf
+    have hall : allBlocks (e :: es) = e.blocks ++ allBlocks es := by simp [allBlocks]
+    rw [hall] at hns hsw
+    unfold singleWriterB at hsw
+    rw [pairwiseB_iff, List.pairwise_append] at hsw
+    obtain ⟨hsw1, hsw2, hsw12⟩ := hsw
+    unfold entriesTopoB at htopo
+    simp only [pairwiseB, Bool.and_eq_true, List.all_eq_true] at htopo
+    obtain ⟨htop1, htop2⟩ := htopo
+    unfold watchesOKB at hw
+    simp only [List.all_cons, Bool.and_eq_true] at hw
+    obtain ⟨hw1, hw2⟩ := hw
+    have hwf_rest : PV.C01.wfBlocks (allBlocks es) = true := by
+      unfold PV.C01.wfBlocks
+      simp only [Bool.and_eq_true, List.all_eq_true]
+      refine ⟨fun b hb => hns b (List.mem_append.mpr (Or.inr hb)), ?_⟩
+      unfold singleWriterB; rw [pairwiseB_iff]; exact hsw2
+    -- the state after the first entry and the facts about it
+    have key : ∃ s1, runEntries fuel es s1 = some t ∧ ∀ b ∈ e.blocks, b.run s1 = s1 := by
+      cases e with
+      | blk b =>
+        simp only [runEntries] at h
+        refine ⟨b.run s, h, ?_⟩
+        intro c hc
+        simp only [Entry.blocks, List.mem_singleton] at hc
+        subst hc
+        exact run_idem c (hns c (by simp [Entry.blocks])) s
+      | scc bs w =>
+        simp only [runEntries] at h
+        cases hi : iterate fuel w bs s with
+        | none => simp [hi] at h
+        | some s1 =>
+          simp only [hi] at h
+          refine ⟨s1, h, ?_⟩
+          have hwfbs : PV.C01.wfBlocks bs = true := by
+            unfold PV.C01.wfBlocks
+            simp only [Bool.and_eq_true, List.all_eq_true]
+            refine ⟨fun b hb => hns b (List.mem_append.mpr (Or.inl hb)), ?_⟩
+            unfold singleWriterB; rw [pairwiseB_iff]; exact hsw1
+          exact stable_is_fixed_point fuel w bs s s1 hwfbs hw1 hi
+    obtain ⟨s1, hrest, hfix⟩ := key
+    intro b hb
+    rw [hall] at hb
+    rcases List.mem_append.mp hb with hb | hb
+    · -- b belongs to the first entry: later entries touch neither its reads nor its writes
+      apply fixed_transfer b s1 t (hfix b hb)
+      · intro v hv
+        apply runEntries_frame fuel es s1 t v hrest
+        intro c hc hcw
+        -- c ∈ some later entry e'; e.reads vs e'.writes do not overlap
+        simp only [allBlocks, List.mem_flatMap] at hc
+        obtain ⟨e', he', hce'⟩ := hc
+        have hno := htop1 e' he'
+        have hfalse : rngsOverlap e.reads e'.writes = false := by simpa using hno
+        refine rngsOverlap_false _ _ hfalse v ?_ ?_
+        · obtain ⟨r, hr, hrv⟩ := hv
+          exact ⟨r, by simp only [Entry.reads, List.mem_flatMap]; exact ⟨b, hb, hr⟩, hrv⟩
+        · obtain ⟨r, hr, hrv⟩ := hcw
+          exact ⟨r, by simp only [Entry.writes, List.mem_flatMap]; exact ⟨c, hce', hr⟩, hrv⟩
+      · intro v hv
+        apply runEntries_frame fuel es s1 t v hrest
+        intro c hc hcw
+        have hdis := hsw12 b hb c hc
+        have hfalse : rngsOverlap b.writes c.writes = false := by simpa using hdis
+        exact rngsOverlap_false _ _ hfalse v hv hcw
+    · exact ih s1 hwf_rest (by unfold entriesTopoB; exact htop2) (by unfold watchesOKB; exact hw2) hrest b hb
+
+end PV.C11
